@@ -98,6 +98,7 @@ def main(run):
     run.prove()
     model_ok = run.build_model()
     run.run_findings()
+    run.pylite(["handshake"])
     if model_ok:
         for what, c, m in run.differential(cases(run)):
             run.violation(what, {"call": c["cmd"][:2000], "implementation": c["impl"][:2000], "model": m[:2000]})
